@@ -210,7 +210,7 @@ def arr_equal(a, b):
 # =============================================================================
 LAYOUTS = ['default', 'default', 'shuffled_ints', 'frame', 'particle', 'frame_particle', 'particle_frame',
            'frame_index', 'x', 'fra', 'e', 'rid', 'dup_ints', 'strings', 'frame_index_particle', 'none_frame',
-           'frame_frame', 'three']
+           'frame_frame', 'three', 'frame_particle_stale', 'frame_stale']
 
 
 def relayout(df, kind, rng):
@@ -233,6 +233,12 @@ def relayout(df, kind, rng):
         df.index = pd.Index(df['frame'].values, name=kind); return df
     if kind == 'frame_particle':
         return df.set_index(['frame', 'particle'], drop=False)
+    if kind == 'frame_particle_stale':
+        # levels NAMED frame / particle that carry an earlier numbering (a sub-movie whose frame column was re-based): the
+        # numbers that count are the columns'
+        df.index = pd.MultiIndex.from_arrays([df['frame'].values + 5, df['particle'].values], names=['frame', 'particle']); return df
+    if kind == 'frame_stale':
+        df.index = pd.Index((df['frame'].values.max() - df['frame'].values + 3) if n else df['frame'].values, name='frame'); return df
     if kind == 'particle_frame':
         return df.set_index(['particle', 'frame'], drop=False)
     if kind == 'frame_index_particle':
@@ -303,7 +309,7 @@ def gen_filter_table(rng, malformed):
             p = df['particle'].iloc[0]
             df.loc[df['particle'] == p, 'size'] = np.nan
     lay = rng.choice(LAYOUTS)
-    if malformed and kinds[0] in ('nan_particle', 'nan_frame') and lay in ('frame_particle', 'particle_frame', 'frame_index_particle', 'three', 'none_frame', 'frame_frame'):
+    if malformed and kinds[0] in ('nan_particle', 'nan_frame') and lay in ('frame_particle', 'particle_frame', 'frame_index_particle', 'three', 'none_frame', 'frame_frame', 'frame_particle_stale'):
         lay = 'frame'
     df = relayout(df, lay, rng)
     return df, dict(order=order, layout=lay, malformed=kinds[0] if kinds else None)
